@@ -84,8 +84,9 @@ def impl_print(ctx, models, src=False, via="proto"):
     return ctx.impl([{"op": "print", "m": m, "src": src, "via": via} for m in models])
 
 
-def model_print(ctx, models, src=False):
-    return ctx.model(FAM, ["(202 %d %s)" % (1 if src else 0, sexp.enc(m)) for m in models])
+def model_print(ctx, models, src=False, via="proto"):
+    op = 205 if via == "json" else 202
+    return ctx.model(FAM, ["(%d %d %s)" % (op, 1 if src else 0, sexp.enc(m)) for m in models])
 
 
 ERR_NEST = re.compile(r"^the '(.*)' relation definition under the '(.*)' type is not supported by the OpenFGA DSL syntax yet$", re.S)
@@ -155,3 +156,83 @@ def norm_impl_tokens(r):
 
 def norm_model_tokens(r):
     return [(t[0], T(t[1]), t[2], t[3]) for t in r[0]], len(r[1])
+
+
+# ---------------------------------------------------------------------------------------------
+# shared check steps
+# ---------------------------------------------------------------------------------------------
+
+def correspond_dsl(ctx, docs, modular=False, label="dsl"):
+    """implementation vs extracted model on DSL documents (verdict, model, extensions, listener errors);
+    returns the normalised implementation results"""
+    ir = [norm_impl_dsl(r) for r in impl_dsl(ctx, docs, modular)]
+    try:
+        mr = [norm_model_dsl(r) for r in model_dsl(ctx, docs)]
+    except core.ModelUnavailable:
+        model_unavailable(ctx)
+        return ir
+    for d, a, b in zip(docs, ir, mr):
+        ctx.count(f"{label}_impl_{a[0]}")
+        if a[0] in ("panic", "timeout", "bad"):
+            ctx.violation("entry-point-abnormal", {"op": "dsl", "modular": modular, "input": S(d), "text": d, "impl": a})
+        elif not agree_dsl(a, b, modular):
+            ctx.violation("correspondence-dsl", {"op": "dsl", "modular": modular, "input": S(d), "text": d,
+                                                 "impl": a, "model": b,
+                                                 "what": "Model/Transform.dsl_to_model and the implementation disagree"},
+                          found_input=False)
+    return ir
+
+
+def correspond_tokens(ctx, docs, label="lex"):
+    """token streams of the generated Go lexer vs Model/Lexer on the cleaned text"""
+    try:
+        clean = model_prepass(ctx, docs)
+        mt = [norm_model_tokens(r) for r in model_lex(ctx, docs)]
+    except core.ModelUnavailable:
+        model_unavailable(ctx)
+        return
+    it = [norm_impl_tokens(r) for r in impl_lex(ctx, clean)]
+    for d, c, a, b in zip(docs, clean, it, mt):
+        if a is None:
+            ctx.violation("entry-point-abnormal", {"op": "lex", "input": S(c), "text": c})
+            continue
+        ctx.count(f"{label}_tokens", len(a[0]))
+        if a[1] == 0 and b[1] == 0:
+            ok = a[0] == b[0]
+        else:
+            # after a lexer error ANTLR drops the scanned prefix; only the verdict is compared
+            ok = (a[1] > 0) == (b[1] > 0)
+        if not ok:
+            k = next((i for i, (x, y) in enumerate(zip(a[0], b[0])) if x != y), min(len(a[0]), len(b[0])))
+            ctx.violation("correspondence-tokens", {"op": "lex", "input": S(d), "text": d, "cleaned": c,
+                                                    "first_difference_at_token": k,
+                                                    "impl": a[0][k:k + 3], "model": b[0][k:k + 3],
+                                                    "what": "Model/Lexer and the generated lexer disagree"},
+                          found_input=False)
+
+
+def correspond_print(ctx, models, src=False, via="proto", label="print"):
+    ir = [norm_impl_print(r) for r in impl_print(ctx, models, src, via)]
+    try:
+        mr = [norm_model_print(r) for r in model_print(ctx, models, src, via)]
+    except core.ModelUnavailable:
+        model_unavailable(ctx)
+        return ir
+    for m, a, b in zip(models, ir, mr):
+        ctx.count(f"{label}_impl_{a[0]}")
+        if a[0] in ("panic", "timeout", "bad"):
+            ctx.violation("entry-point-abnormal", {"op": "print", "src": src, "via": via, "model": m, "impl": a})
+            continue
+        x, y = (a[:2], b[:2]) if via == "json" else (a, b)
+        if x != y:
+            ctx.violation("correspondence-print", {"op": "print", "src": src, "via": via, "model": m, "impl": a[:2],
+                                                   "model_result": b[:2], "after_equal": a[2:] == b[2:],
+                                                   "what": "Model/Printer.print_model and the implementation disagree"},
+                          found_input=False)
+    return ir
+
+
+def model_unavailable(ctx):
+    ctx.violation("model-unavailable", {"what": "the extracted model does not build",
+                                        "coq_errors": ctx.st.coq_errors[-2000:], "translator": ctx.st.gen},
+                  found_input=False)
